@@ -170,7 +170,7 @@ func (l *live9) apply(o op9, h *hist9, res *result, check bool) bool {
 			})
 		case "clean":
 			err = guard(func() error { return st.Clean() })
-		case "compactall":
+		case "compactall", "expire":
 			err = guard(func() error { return st.CompactAll(nil) })
 			if err == nil {
 				err = reftable.ErrLockFailure // compaction reports contention as "nothing done"
@@ -264,8 +264,12 @@ func (l *live9) apply(o op9, h *hist9, res *result, check bool) bool {
 		if dirHash(l.w) != before {
 			viol("stale:newaddition-changed-directory", fmt.Sprintf("%s (stale=%v) followed by Close changed the directory: %s -> %s", o, stale, before, dirHash(l.w)))
 		}
-	case "compactall":
-		err := guard(func() error { return st.CompactAll(nil) })
+	case "compactall", "expire":
+		var exp *reftable.LogExpirationConfig
+		if o.Kind == "expire" {
+			exp = &reftable.LogExpirationConfig{Time: 1} // expires nothing (all entries are newer): the view must not change
+		}
+		err := guard(func() error { return st.CompactAll(exp) })
 		if err != nil {
 			viol("compactall-fails:"+short(err.Error()), fmt.Sprintf("%s (stale=%v) failed: %v", o, stale, err))
 			return true
@@ -413,7 +417,7 @@ func runC09(tier string, wi, wn int, res *result) {
 				return
 			}
 			for hi := range f.handles {
-				for _, k := range []string{"add", "retry", "compactall", "newaddition", "clean", "hold", "release"} {
+				for _, k := range []string{"add", "retry", "compactall", "expire", "newaddition", "clean", "hold", "release"} {
 					child := &hist9{Handles: f.handles, Ops: append(append([]op9{}, h.Ops...), op9{hi, k})}
 					if len(child.Ops) == 2 {
 						unit++
